@@ -236,6 +236,13 @@ In the core this is the pseudo-coordinate (token index, file reference `idx + 1`
 force when that token was returned) in the `line` / `col` fields; `finish` resolves it. -/
 def tokCoord (t : PTok) : P Coord := fun s => .ok ⟨"", t.idx, some (t.idx + 1)⟩ s
 
+/-- `_here()`: the location of the next token, for errors raised when it cannot start what the
+grammar expects; the file name at the end of the input -/
+def hereLoc : P Loc := do
+  match ← peek with
+  | some tok => pure (.coord (← tokCoord tok))
+  | none => lexFileLoc
+
 /-- `_advance` -/
 def advance : P PTok := do
   match ← nextTok with
